@@ -146,6 +146,8 @@ mod profiler;
 pub(crate) mod runner;
 pub(crate) mod scheduler;
 pub(crate) mod stream;
+#[cfg(renoir_verif)]
+pub mod verif;
 #[cfg(test)]
 pub(crate) mod test;
 pub(crate) mod worker;
